@@ -291,6 +291,8 @@ static void ep4_mul_reg_gls(ep4_t r, const ep4_t p, const bn_t k) {
 			fp4_copy_sec(r->x, q[1]->x, even[i]);
 			fp4_copy_sec(r->y, q[1]->y, even[i]);
 			fp4_copy_sec(r->z, q[1]->z, even[i]);
+			/* The two candidates may be in different coordinate systems. */
+			r->coord = RLC_SEL(r->coord, q[1]->coord, even[i]);
 		}
 
 		/* Convert r to affine coordinates. */
